@@ -3,6 +3,8 @@
 package main
 
 import (
+	"bufio"
+	"bytes"
 	"fmt"
 	"os"
 	"sort"
@@ -287,3 +289,5 @@ func sortedKeys[V any](m map[string]V) string {
 	sort.Strings(k)
 	return strings.Join(k, ",")
 }
+
+func bufioReader(b []byte) *bufio.Reader { return bufio.NewReader(bytes.NewReader(b)) }
